@@ -353,7 +353,8 @@ def blocks_kept(E, P, ctx):
         raise SpecError("blocks_kept() outside a postcondition")
     v = Ref(z3.Const("v!bk", RefS), "Variable")
     trig = z3.Select(E.heap_array(P, "Variable.block", RefS), v.t)
-    return [(P, Bool(_forall([v.t], z3.Implies(z3.And(v.t != NULL, z3.Select(E.alloc_arr(P.old), v.t), _has_block(E, P.old, v)),
+    return [(P, Bool(_forall([v.t], z3.Implies(z3.And(v.t != NULL, z3.Select(E.alloc_arr(P.old), v.t), E.type_is(P.old, v.t, "Variable"),
+                                                      _has_block(E, P.old, v)),
                                                _has_block(E, P, v)), trig)))]
 
 
@@ -464,17 +465,6 @@ CONTRACTS.update({
                               "vl.block is not vr.block"]},
         ],
     },
-    "vpsc.Blocks.__init__": {
-        "props": ["C05", "C01"], "mode": "assume", "why": "constructor loop building one block per variable (bounded only)",
-        "requires": ["vs is not None", "inv_blk()"],
-        "returns": "none", "allocates": ["Block", "PositionStats", "list"],
-        # one block per variable of vs; no constraint is touched.  inv_blk survives because the variables of vs carry no
-        # ACTIVE constraint when a solver is new (satisfy requires own_inactive(self) in that case)
-        "modifies": RESTRUCT + ["Blocks.vs"],
-        "ensures": ["inv_blk()", "unchanged('Constraint.active')", "self.vs is vs", "self._list is not None",
-                    "implies(forall(lambda i: implies(0 <= i < len(vs), vs[i] is not None and vs[i].scale > 0)), vars_in_blocks(vs))",
-                    "blocks_kept()"],
-    },
     "vpsc.Blocks.cost": {
         "props": ["C05"], "mode": "assume", "why": "sum over the block partition (bounded only)",
         "requires": [], "modifies": [], "returns": "real", "ensures": []},
@@ -488,7 +478,11 @@ CONTRACTS.update({
                      # either the blocks exist and every constraint is well-formed, or this is a new solver whose
                      # constraints are inactive and whose variables are about to get their blocks
                      "(self.bs is not None and wf_lists(self)) or (self.bs is None and self.vs is not None and prewf_list(self.cs, self.vs) "
-                     "and prewf_list(self.inactive, self.vs) and own_inactive(self))"],
+                     "and prewf_list(self.inactive, self.vs) and own_inactive(self))",
+                     # a new solver builds one block per variable (Blocks.__init__, verified): its variables are distinct, have
+                     # positive weights, and no ACTIVE constraint (of an older solver) has an end among them
+                     ("new_solver_variables", "implies(self.bs is None, forall(lambda j: implies(0 <= j < len(self.vs), self.vs[j].weight > 0 and vidx(self.vs[j]) == j)) "
+                                              "and untouched_by_active(self.vs))")],
         "modifies": RESTRUCT + CLISTS + ["Constraint.unsatisfiable", "Solver.bs", "Blocks.vs"],
         "loops": {0: {
             "locals": {"v": "ref:Constraint", "lb": "ref:Block", "rb": "ref:Block"},
@@ -631,7 +625,12 @@ CONTRACTS["vpsc.Block.__init__"] = {
                 # a one-variable block sits at its variable's desired position (times the unit ratio of the scales)
                 ("at_desired_position", "self.posn == v.desiredPosition"),
                 ("reported_position", "spos(v) == v.scale * v.desiredPosition"),
-                ("other_variables_untouched", "forall(lambda u: implies(u is not v and old(alloc(u)), u.block is old(u.block) and u.offset == old(u.offset)), 'ref:Variable')")],
+                ("other_variables_untouched", "forall(lambda u: implies(u is not v and old(alloc(u)), u.block is old(u.block) and u.offset == old(u.offset)), 'ref:Variable')"),
+                # frame: every block and statistics object that existed keeps its fields; other member lists are untouched
+                ("other_blocks_untouched", "forall(lambda o: implies(o is not self and old(alloc(o)), o.vars is old(o.vars) and o.ps is old(o.ps) and o.posn == old(o.posn)), 'ref:Block')"),
+                ("other_statistics_untouched", "forall(lambda o: implies(old(alloc(o)), o.scale == old(o.scale) and o.AB == old(o.AB) and o.AD == old(o.AD) and o.A2 == old(o.A2)), 'ref:PositionStats')"),
+                ("other_lists_untouched", "forall(lambda q: implies(old(alloc(q)), len(q) == old(len(q))), 'slist:ref:Variable@vars')"),
+                ("other_lists_elems_untouched", "forall(lambda q, j: implies(old(alloc(q)), q[j] is old(q[j])), 'slist:ref:Variable@vars', 'int')")],
 }
 
 
@@ -686,6 +685,53 @@ CONTRACTS["vpsc.Block.updateWeightedPosition"] = {
                 ("A2_positive", "self.ps.A2 > 0"),
                 ("other_blocks_stay", "forall(lambda o: implies(o is not self, o.posn == old(o.posn)), 'ref:Block')"),
                 ("other_statistics_stay", "forall(lambda o: implies(o is not self.ps, o.AB == old(o.AB) and o.AD == old(o.AD) and o.A2 == old(o.A2)), 'ref:PositionStats')")],
+}
+
+
+# ------------------------------------------------------------------------------------------- Blocks.__init__
+def untouched_by_active(E, P, ctx, vs):
+    """no ACTIVE constraint has an end among the variables of vs (a new solver: its own constraints are inactive and the
+    constraints of older solvers join older variables) - what makes it safe to give every variable of vs a new block"""
+    c = Ref(z3.Const("c!uba", RefS), "Constraint")
+    l, r = rd(E, P, c, "Constraint", "left"), rd(E, P, c, "Constraint", "right")
+    act = rd(E, P, c, "Constraint", "active").t
+    body = z3.Implies(z3.And(c.t != NULL, z3.Select(E.alloc_arr(P), c.t), E.type_is(P, c.t, "Constraint"), act),
+                      z3.And(l.t != NULL, r.t != NULL, z3.Not(_in_vs(E, P, vs, l)), z3.Not(_in_vs(E, P, vs, r))))
+    return [(P, Bool(_forall([c.t], body, z3.Select(E.heap_array(P, "Constraint.active", z3.BoolSort()), c.t))))]
+
+
+SPECFUNS["untouched_by_active"] = untouched_by_active
+_VS_OK = "forall(lambda j: implies(0 <= j < len(vs), vs[j] is not None and vs[j].scale > 0 and vs[j].weight > 0 and vidx(vs[j]) == j))"
+_BUILT = ("forall(lambda j: implies({lo} < j < len(vs), self._list[j] is not None and self._list[j].blockInd == j and vs[j].block is self._list[j] "
+          "and self._list[j].ps is not None and self._list[j].vars is not None))")
+CONTRACTS["vpsc.Blocks.__init__"] = {
+    "props": ["C05", "C01"], "heap": True, "none_list_kind": "ref:Block",
+    "params": {"self": "ref:Blocks", "vs": "slist:ref:Variable"},
+    "requires": ["vs is not None", "inv_blk()", ("variables_ok_and_distinct", _VS_OK),
+                 ("no_active_constraint_touches_vs", "untouched_by_active(vs)")],
+    "returns": "none", "allocates": ["Block", "PositionStats", "list"],
+    "modifies": RESTRUCT + ["Blocks.vs"],
+    "loops": {"for i in range(len(vs) - 1, -1, -1)": {
+        "label": "_build", "index": "_kb", "locals": {"i": "int", "b": "ref:Block"},
+        "modifies": [m for m in RESTRUCT if m not in ("Constraint.active", "Constraint.lm", "Constraint.lm$set", "Blocks._list")],
+        "allocates": ["Block", "PositionStats", "list"],
+        "inv": [("lists", "self.vs is vs and self._list is not None and len(self._list) == len(vs) and len(vs) == old(len(vs)) "
+                          "and forall(lambda j: implies(0 <= j < len(vs), vs[j] is old(vs[j])))"),
+                ("vs_ok", _VS_OK),
+                ("built_suffix", _BUILT.format(lo="_kb")),
+                ("inv_blk", "inv_blk()"),
+                ("no_active_touches_vs", "untouched_by_active(vs)"),
+                ("others_untouched", "forall(lambda u: implies(old(alloc(u)) and not in_vs(vs, u), u.block is old(u.block) and u.offset == old(u.offset)), 'ref:Variable')"),
+                ("old_blocks_untouched", "forall(lambda o: implies(old(alloc(o)), o.vars is old(o.vars) and o.ps is old(o.ps)), 'ref:Block')")]}},
+    "ensures": [("inv_blk", "inv_blk()"), ("lists_handed_over", "self.vs is vs and self._list is not None and len(self._list) == len(vs)"),
+                ("one_block_per_variable", _BUILT.format(lo="-1")),
+                ("inv_list", "inv_list(self)"),
+                ("vars_in_blocks", "vars_in_blocks(vs)"),
+                ("members_have_blocks", "forall(lambda u: implies(in_vs(vs, u), u.block is not None and u.block.ps is not None and u.block.vars is not None), 'ref:Variable')"),
+                ("wf_old_blocks", "forall(lambda u: implies(old(alloc(u)) and isa(u, 'Variable') and old(u.block) is not None, old(alloc(u.block))), 'ref:Variable')"),
+                ("non_members_untouched", "forall(lambda u: implies(old(alloc(u)) and isa(u, 'Variable') and not in_vs(vs, u), u.block is old(u.block) and u.offset == old(u.offset) "
+                                          "and implies(old(u.block) is not None, u.block.ps is old(u.block.ps) and u.block.vars is old(u.block.vars))), 'ref:Variable')"),
+                ("blocks_kept", "blocks_kept()")],
 }
 
 
